@@ -30,7 +30,25 @@ class Plugin(BasePlugin):
         'doubles are the dyadic rationals k/8; NaN/inf are not generated',
     ]
 
+    def gen_focus_array_operand(self, rng):
+        """an ARRAY as the operand of an equality (plain, $eq, $in, $ne, $nin, below $not / $nor)
+        against a field that equals it, holds it as one of its elements, or holds its elements -
+        at the top level and below an array of sub-documents"""
+        arr = rng.choice([[1, 2], ['y'], [], [1], [[1]], [None]])
+        other = rng.choice([[3], ['x'], [2, 1], [1, 2, 3]])
+        val = rng.choice([arr, [arr, other], [other, arr], [other], list(arr) + [9], [[arr]], other])
+        where = rng.choice(['a', 'a', 'p.q'])
+        doc = {'a': val} if where == 'a' else {'p': rng.choice([{'q': val}, [{'q': val}, {'q': other}], [{'q': other}, {'z': 1}]])}
+        cond = rng.choice([arr, arr, {'$eq': arr}, {'$in': [arr, 5]}, {'$ne': arr}, {'$nin': [arr]},
+                           {'$not': {'$eq': arr}}, {'$all': [arr]}])
+        f = {where: cond}
+        if rng.random() < 0.2:
+            f = {rng.choice(['$nor', '$or', '$and']): [f]}
+        return {'filter': f, 'doc': dict(doc, _id=0), 'via': 'find' if rng.random() < 0.3 else 'direct', 'others': []}
+
     def gen_case(self, rng, i, tier):
+        if rng.random() < 0.04:
+            return self.gen_focus_array_operand(rng)
         depth = 2 if rng.random() < 0.8 else 3
         doc = gen.document(rng, depth)
         malformed = rng.random() < 0.12
